@@ -38,7 +38,9 @@ D3 == <<Tok("var", 3, 2), Tok("w", 1, 3), Tok("expression", 10, 2)>>           \
 \* (not part of the scratch buffer), but it is a line of the file
 CM == <<Tok("#", 1, 0), Tok("note", 4, 1)>>
 IsCmt(line) == Len(line) > 0 /\ line[1].t = "#"
-Metas == {<<>>, <<D1>>, <<D1, D2>>, <<D3, D2>>, <<CM, D1>>, <<D1, CM, D2>>, <<D1, CM, CM>>}
+\* an empty line inside the metavariable section (it is copied to the scratch buffer as a line of width 0)
+EL == <<>>
+Metas == {<<>>, <<D1>>, <<D1, D2>>, <<D3, D2>>, <<CM, D1>>, <<D1, CM, D2>>, <<D1, CM, CM>>, <<D1, EL, D2>>, <<EL, D3, CM, EL>>}
 
 \* ---- faults: each replaces one line of one change by a faulty line and names
 \* ---- the index of the offending token in it (0 = the end of the line)
